@@ -229,13 +229,14 @@ fn one_reader_case(sink: &mut Sink, o: &mut Oracle, st: &mut Stats, doc: &[u8], 
 }
 
 /// documents without tags / merge keys (so that the `IgnoredAny` consumer has no error of its own) and
-/// without `%` lines (the external scanner does not return on a reader input cut inside a directive)
+/// (documents with `%` lines are included: since fix bfd6267 an input cut inside a directive terminates)
 fn corpus(rng: &mut Rng, thorough: bool) -> Vec<Vec<u8>> {
     let mut v: Vec<Vec<u8>> = Vec::new();
     for s in ["", "~", "~\n", "x\n", "~\n---\na: 1\n", "null\n---\nb\n", "a: 1\n", "a: 1\nb: 2\n", "a: 1\n---\nb: 2\n", "- a\n- b\n", "---\n~\n---\n~\n---\nx\n",
         "a\n...\n", "a\n...\njunk: [\n", "a\n---\n", "--- a\n--- b\n", "[1, 2, 3]\n", "{a: 1, b: [x, y]}\n", "k: é€😀\n", "é: [ü, ö]\n", "- &a x\n- *a\n",
         "a: &m {k: v}\nb: *m\n---\nc: *m\n", "\"quoted\\n\"\n", ">\n folded\n", "|\n lit\n", "a:\n  b:\n    c: d\n", "# comment\n", "---\n...\n", "\n\n", "a: ~\n",
-        "\u{feff}a: 1\n", "[a, b", "{a: 1", "a: b: c", "- [\n", "€", "- 😀\n- ~\n---\n~\n"] {
+        "\u{feff}a: 1\n", "[a, b", "{a: 1", "a: b: c", "- [\n", "€", "- 😀\n- ~\n---\n~\n",
+        "%YAML 1.2\n---\na: 1\n", "%TAG ! tag:x,2000:\n--- !t b\n", "a\n...\n%YAML 1.2\n---\nb\n", "%YAML", "~\n...\n%x y\n---\n~\n"] {
         v.push(s.as_bytes().to_vec());
     }
     let n = if thorough { 300 } else { 40 };
@@ -253,7 +254,8 @@ fn corpus(rng: &mut Rng, thorough: bool) -> Vec<Vec<u8>> {
         if text.len() > 90 && !thorough { continue; }
         v.push(text.into_bytes());
     }
-    v.retain(|d| !hang_risk(d) && !String::from_utf8_lossy(d).contains("<<"));
+    // (documents with `%` lines are included since fix bfd6267: a fault or cap may cut the input inside a directive)
+    v.retain(|d| !String::from_utf8_lossy(d).contains("<<"));
     v
 }
 
@@ -423,7 +425,7 @@ fn generate(a: &Args) -> i32 {
         "measured_max_pull_beyond_cap": st.max_over_cap,
         "measured_max_pull_beyond_cap_case": st.max_over_cap_case,
         "allowance_bound_checked": allowance,
-        "rule": "reader side: hand corpus + generated tag-free/merge-free multi-document streams (no `%` lines) x EVERY fault position k in 0..=len (48 sampled positions for longer documents in quick tier) x {reader fails forever with kind Other, fails once (Other, ConnectionReset), clean EOF at k (includes EOF inside a code point), fails with kind UnexpectedEof forever/once} x chunkings {1, 3, whole} and x every cap in 0..=len+2 x chunkings {1, whole}; for each configuration the hook reader_items_with_cell gives the parser items and the pulls at which the error cell was set; compared with the Lean protocol model: result of from_reader_with_options::<IgnoredAny> (ok / error kind), the item list of read_with_options::<IgnoredAny> (ok / error kind per item). Oracle: cell set or cap breach or EOF inside a code point => Err (single) / an Err item (iterator); closure reader helper = from_reader; cap >= length changes nothing; bytes pulled <= cap + allowance (measured on a 150 KB input with caps 0..64 KiB); a reader error of any kind => Err. writer side: fault-free write calls recorded, then for every k the k-th write fails (kinds Other, BrokenPipe), plus random schedules of short writes / Interrupted / zero-length accepts; compared with the model: result kind and accepted bytes; oracle: accepted bytes are a prefix of the fault-free output, Err is the I/O error. Non-trivial = reader configurations with a fault or an active cap.",
+        "rule": "reader side: hand corpus + generated tag-free/merge-free multi-document streams (incl. `%` directive lines, so that faults and caps cut the input inside a directive) x EVERY fault position k in 0..=len (48 sampled positions for longer documents in quick tier) x {reader fails forever with kind Other, fails once (Other, ConnectionReset), clean EOF at k (includes EOF inside a code point), fails with kind UnexpectedEof forever/once} x chunkings {1, 3, whole} and x every cap in 0..=len+2 x chunkings {1, whole}; for each configuration the hook reader_items_with_cell gives the parser items and the pulls at which the error cell was set; compared with the Lean protocol model: result of from_reader_with_options::<IgnoredAny> (ok / error kind), the item list of read_with_options::<IgnoredAny> (ok / error kind per item). Oracle: cell set or cap breach or EOF inside a code point => Err (single) / an Err item (iterator); closure reader helper = from_reader; cap >= length changes nothing; bytes pulled <= cap + allowance (measured on a 150 KB input with caps 0..64 KiB); a reader error of any kind => Err. writer side: fault-free write calls recorded, then for every k the k-th write fails (kinds Other, BrokenPipe), plus random schedules of short writes / Interrupted / zero-length accepts; compared with the model: result kind and accepted bytes; oracle: accepted bytes are a prefix of the fault-free output, Err is the I/O error. Non-trivial = reader configurations with a fault or an active cap.",
     }));
     0
 }
